@@ -18,6 +18,7 @@ Line protocol of the C11 driver.
   qfields  status                 (spec: status fields of the two paths quantis returns)
   rtable   s0 s1 wfAny hasAcc     (spec: returned status and [0+] status field of retis_swap_zero)
   inprocframes sub maxlen ase     (in-process engine that nothing stops, empty path of maxlen: "<frames> <success>")
+  qlm1cfg quantis lm1             (lm1 rational or - : "reject" | "pass <L in start_cond of [0-]> <R in …>")
 answer:
   accept status st0 st1 w0 w1 draws expArg | list<frame> | list<frame> | list<req> | at=<requests before the ξ draw or ->
   or err:<kind>
@@ -176,6 +177,12 @@ def handle (toks : List String) : String :=
       let t := retisTable s0 s1 wf a
       s!"{t.str} {(retisField1 s1 t).str}"
     | _, _, _, _ => "bad-op"
+  | ["qlm1cfg", q, lm1] =>
+    match parseBool? q, (if lm1 = "-" then some none else (parseRat? lm1).map some) with
+    | some q, some lm1 =>
+      if configRejectsQuantisLm1 q lm1 then "reject"
+      else let sc := zeroMinusStartCond lm1; s!"pass {if sc.1 then 1 else 0} {if sc.2 then 1 else 0}"
+    | _, _ => "bad-op"
   | ["inprocframes", sub, n, ase] =>
     match parseNat? sub, parseNat? n, parseBool? ase with
     | some sub, some n, some ase =>
